@@ -165,12 +165,41 @@ class Expander:
             t = idx_text(sl, self.loopvars)
             if t == "":
                 return v
-            mapping = {}
-            for a in v.all_atoms():
-                if a[0] == "sym" and a[1] not in self.scalar_names and not a[1].startswith("rng."):
-                    mapping[a] = R.sym(f"{a[1]}[{t}]")
-            return anf.subst(v, mapping) if mapping else v
+            return self.index_R(v, t)
         raise Unsupported(f"subscript of {v!r}")
+
+    POINTWISE = {"erf", "abs", "tanh", "cos", "sin", "int", "max", "min", "floordiv", "mod"}
+
+    def index_R(self, v, t):
+        """v[t] for an elementwise expression: the index distributes over arithmetic and pointwise
+        functions and lands on the array atoms; an opaque call result f(..)[t] becomes the atom f[t](..)."""
+        mapping = {}
+        for a in v.atoms():
+            if a[0] == "sym":
+                if a[1] not in self.scalar_names and not a[1].startswith("rng."):
+                    mapping[a] = R.sym(f"{a[1]}[{t}]")
+            elif a[0] in ("exp", "log", "poly"):
+                inner = self.index_R(anf.REG.get(a[1])[0], t)
+                mapping[a] = {"exp": anf.exp_, "log": anf.log_, "poly": lambda z: z}[a[0]](inner)
+            elif a[0] == "fn":
+                args = anf.REG.get(a[2])
+                if a[1] in self.POINTWISE:
+                    mapping[a] = anf.fn_(a[1], *[self.index_R(x, t) for x in args])
+                else:
+                    mapping[a] = R.atom(("fn", f"{a[1]}[{t}]", a[2]))
+        if not mapping:
+            return v
+        # top-level substitution only (nested occurrences were handled recursively above)
+        out_num, out_den = R.const(0), R.const(0)
+        def sub_poly(p):
+            tot = R.const(0)
+            for m, c in p.items():
+                term = R.const(c)
+                for a, e in m:
+                    term = term * (mapping[a] if a in mapping else R.atom(a)).pow(e)
+                tot = tot + term
+            return tot
+        return sub_poly(v.num).div(sub_poly(v.den))
 
     # -------------------------------------------------------------- self attributes
     def self_attr(self, attr, env):
